@@ -1,63 +1,27 @@
 """Model rules: R28 (suffix/slice agreement), R29 (sibling predicates), R40 (every triple is
-role-checked), R23model (provenance in invert / deinvert / sort keys), R24m (canonicalize_role order)."""
+role-checked), R23model (provenance in invert / deinvert / sort keys), R24m (canonicalize_role order).
+
+The recognisers work on expanded expressions (single-definition locals are inlined) and on path
+conditions, so guard-clause / if-else / conditional-expression layouts are equivalent.  A construct
+that is not recognised is `undecided`; violations carry a witness."""
 from __future__ import annotations
 
 import ast
-from typing import Dict, List, Optional
+import re as _re
+from typing import List
 
 from .. import boolnorm as bn
-from ..cfg import CFG, cond_facts, facts_at, owner_node
 from ..core import Ctx, RuleReport, rule
+from ..resolve import bool_function_formula, condition_of, expand, facts_ex, local_callees, unique_def, view
 from ..src import AnalysisError, FuncInfo, norm, try_fold, walk_local
 from .lexical import single_def
 
 M = 'penman.model'
+HAS = ('atom', 'self._has_role(ROLE)')
+ENDS = ('atom', "ROLE.endswith('-of')")
 
 
-@rule('R28', 'x.endswith(LIT) guards x[:-N] only with N == len(LIT)')
-def r28(ctx: Ctx) -> RuleReport:
-    rep = RuleReport('R28', r28.title, floor=2)
-    for fi in ctx.repo.all_functions():
-        subs = []
-        for n in walk_local(fi.node):
-            if isinstance(n, ast.Subscript) and isinstance(n.slice, ast.Slice) and n.slice.lower is None \
-                    and n.slice.step is None and n.slice.upper is not None:
-                ok, v = try_fold(n.slice.upper)
-                if ok and isinstance(v, int) and v < 0:
-                    subs.append((n, -v))
-        if not subs:
-            continue
-        cfg = CFG(fi.node)
-        IN = cond_facts(cfg)
-        pm = ctx.repo.parent_map(fi.node)
-        for n, k in subs:
-            base = norm(n.value)
-            facts = facts_at(cfg, IN, pm, n)
-            lits = []
-            for f, pol in facts:
-                if pol and f.startswith(f'{base}.endswith('):
-                    e = ast.parse(f, mode='eval').body
-                    ok, lit = try_fold(e.args[0]) if e.args else (False, None)
-                    if ok and isinstance(lit, str):
-                        lits.append(lit)
-            if not lits:
-                continue
-            key = f'{fi.module.name}:{fi.qualname}: {norm(n)} under endswith({lits[0]!r})'
-            good = all(len(l) == k for l in lits)
-            rep.add(key, fi.loc(n), 'ok' if good else 'violation',
-                    '' if good else f'strips {k} characters after testing for the {len(lits[0])}-character suffix {lits[0]!r}')
-    return rep
-
-
-def _ret_expr(ctx: Ctx, fi: FuncInfo) -> ast.AST:
-    rets = [n for n in walk_local(fi.node) if isinstance(n, ast.Return) and n.value is not None]
-    if len(rets) != 1:
-        raise AnalysisError(f'{fi.fq}: expected exactly one return')
-    return rets[0].value
-
-
-def _canon_role_atoms(param: str):
-    import re as _re
+def _canon(param: str):
     pat = _re.compile(r'\b' + _re.escape(param) + r'\b')
 
     def canon(s: str) -> str:
@@ -65,25 +29,134 @@ def _canon_role_atoms(param: str):
     return canon
 
 
+def _implied_suffixes(ctx: Ctx, fi: FuncInfo, n: ast.AST, base: str) -> List[str]:
+    """Literal suffixes L such that `base.endswith(L)` is known to hold where `n` is evaluated."""
+    lits = []
+    for f, pol in facts_ex(ctx, fi, n):
+        if pol and f.startswith(f'{base}.endswith('):
+            e = ast.parse(f, mode='eval').body
+            okl, lit = try_fold(e.args[0]) if e.args else (False, None)
+            if okl and isinstance(lit, str):
+                lits.append(lit)
+    if lits:
+        return lits
+    # guard-clause layout: `if ... or not x.endswith(lit): return ...` precedes the slice
+    try:
+        cond = condition_of(ctx, fi, n)
+    except AnalysisError:
+        return lits
+    for a in bn.atoms_of(cond):
+        if a.startswith(f'{base}.endswith('):
+            e = ast.parse(a, mode='eval').body
+            okl, lit = try_fold(e.args[0]) if e.args else (False, None)
+            if okl and isinstance(lit, str) and bn.equivalent(bn.mk_and([cond, bn.mk_not(('atom', a))]), False) is None:
+                lits.append(lit)
+    return lits
+
+
+@rule('R28', 'x.endswith(LIT) guards x[:-N] only with N == len(LIT); the -of suffix is never cut by partition/replace/strip')
+def r28(ctx: Ctx) -> RuleReport:
+    rep = RuleReport('R28', r28.title, floor=2)
+    for fi in ctx.repo.all_functions():
+        for n in walk_local(fi.node):
+            if isinstance(n, ast.Subscript) and isinstance(n.slice, ast.Slice) and n.slice.lower is None \
+                    and n.slice.step is None and n.slice.upper is not None:
+                ok, v = try_fold(n.slice.upper)
+                if not (ok and isinstance(v, int) and v < 0):
+                    continue
+                k = -v
+                lits = _implied_suffixes(ctx, fi, n, norm(n.value))
+                if not lits:
+                    continue
+                key = f'{fi.module.name}:{fi.qualname}: {norm(n)} under endswith({lits[0]!r})'
+                good = all(len(l) == k for l in lits)
+                rep.add(key, fi.loc(n), 'ok' if good else 'violation',
+                        '' if good else f'strips {k} characters after testing for the {len(lits[0])}-character suffix {lits[0]!r}')
+            if fi.module.name == M and isinstance(n, ast.Call) and isinstance(n.func, ast.Attribute) \
+                    and n.func.attr in ('partition', 'replace', 'split', 'rstrip', 'strip', 'removesuffix', 'rpartition', 'rsplit') \
+                    and n.args and try_fold(n.args[0]) == (True, '-of') and n.func.attr not in ('removesuffix', 'rpartition', 'rsplit'):
+                rep.violation(f'{fi.module.name}:{fi.qualname}: {norm(n)}', fi.loc(n),
+                              f'.{n.func.attr}("-of") does not remove the final "-of": partition/split/replace cut at the first (or every) '
+                              f'occurrence and strip removes a character set, so roles like :consist-of-of or :hand-off-of are mangled')
+    return rep
+
+
+def _ret_stmts(fi: FuncInfo) -> List[ast.Return]:
+    return [n for n in walk_local(fi.node) if isinstance(n, ast.Return) and n.value is not None]
+
+
+def _template_pieces(ctx: Ctx, fi: FuncInfo, e: ast.AST, at: ast.AST, depth: int = 0):
+    """String-building expression -> [('lit', s) | ('join', sep, source of the joined list) | ('expr', src)]"""
+    if depth > 6:
+        return [('expr', norm(e))]
+    if isinstance(e, ast.Constant) and isinstance(e.value, str):
+        return [('lit', e.value)]
+    if isinstance(e, ast.Name):
+        d = unique_def(view(ctx, fi), e.id, at)
+        if d is not None:
+            return _template_pieces(ctx, fi, d, d, depth + 1)
+        return [('expr', e.id)]
+    if isinstance(e, ast.JoinedStr):
+        out = []
+        for x in e.values:
+            if isinstance(x, ast.Constant):
+                out.append(('lit', x.value))
+            else:
+                out += _template_pieces(ctx, fi, x.value, at, depth + 1)
+        return out
+    if isinstance(e, ast.BinOp) and isinstance(e.op, ast.Add):
+        return _template_pieces(ctx, fi, e.left, at, depth + 1) + _template_pieces(ctx, fi, e.right, at, depth + 1)
+    if isinstance(e, ast.Call) and isinstance(e.func, ast.Attribute) and e.func.attr == 'format' and not e.keywords:
+        ok, fmt = try_fold(e.func.value)
+        if ok and isinstance(fmt, str):
+            parts = fmt.split('{}')
+            if len(parts) == len(e.args) + 1:
+                out = []
+                for i, lit in enumerate(parts):
+                    if lit:
+                        out.append(('lit', lit))
+                    if i < len(e.args):
+                        out += _template_pieces(ctx, fi, e.args[i], at, depth + 1)
+                return out
+    if isinstance(e, ast.Call) and isinstance(e.func, ast.Attribute) and e.func.attr == 'join' and len(e.args) == 1:
+        ok, sep = try_fold(e.func.value)
+        if ok and isinstance(sep, str):
+            lst = expand(ctx, fi, e.args[0], at)
+            return [('join', sep, norm(lst))]
+    return [('expr', norm(e))]
+
+
+def _anc(pm, node):
+    n = node
+    while id(n) in pm:
+        n = pm[id(n)]
+        yield n
+
+
+def _inverted_formula(ctx: Ctx):
+    iri = ctx.repo.func(M, 'Model.is_role_inverted')
+    return iri, bool_function_formula(ctx, iri, canon=_canon(iri.positional[1]))
+
+
 @rule('R29', 'is_role_inverted, invert_role, deinvert and has_role agree on what an inverted role is')
 def r29(ctx: Ctx) -> RuleReport:
     rep = RuleReport('R29', r29.title, floor=4)
     repo = ctx.repo
-    iri = repo.func(M, 'Model.is_role_inverted')
-    p = iri.positional[1]
-    inverted = bn.Abstractor(canon=_canon_role_atoms(p)).formula(_ret_expr(ctx, iri))
-    HAS = ('atom', 'self._has_role(ROLE)')
-    ENDS = ('atom', "ROLE.endswith('-of')")
+    try:
+        iri, inverted = _inverted_formula(ctx)
+    except AnalysisError as exc:
+        iri = repo.func(M, 'Model.is_role_inverted')
+        rep.undecided(f'{iri.fq}: boolean function', iri.loc(), str(exc))
+        return rep
     want = bn.mk_and([bn.mk_not(HAS), ENDS])
+    known = set(bn.atoms_of(inverted)) <= {HAS[1], ENDS[1]}
     d = bn.equivalent(inverted, want)
-    rep.add(f'{iri.fq}: inverted iff not defined by the model and ends in -of', iri.loc(), 'ok' if d is None else 'violation',
+    rep.add(f'{iri.fq}: inverted iff not defined by the model and ends in -of', iri.loc(),
+            'ok' if d is None else ('violation' if known else 'undecided'),
             bn.show(inverted) if d is None else f'is {bn.show(inverted)}; differs from `not has and endswith(-of)` for {d}')
-    # invert_role: the branch that strips must be taken exactly when inverted
+    # invert_role: strips exactly when inverted, appends otherwise
     ir = repo.func(M, 'Model.invert_role')
     p2 = ir.positional[1]
-    cfg = CFG(ir.node)
-    IN = cond_facts(cfg)
-    pm = repo.parent_map(ir.node)
     strip = add = None
     for n in walk_local(ir.node):
         if isinstance(n, ast.Subscript) and isinstance(n.slice, ast.Slice) and norm(n.value) == p2 and n.slice.upper is not None:
@@ -94,96 +167,108 @@ def r29(ctx: Ctx) -> RuleReport:
         rep.undecided(f'{ir.fq}: one branch strips -of and the other appends it', ir.loc(),
                       f'strip={norm(strip) if strip else None} append={norm(add) if add else None}')
     else:
-        # the two rewrites sit in the two arms of one `if`
-        n = strip
-        owner = None
-        while id(n) in pm:
-            par = pm[id(n)]
-            if isinstance(par, ast.If) and any(n is b or any(x is n for x in ast.walk(b)) for b in par.body) \
-                    and any(any(x is add for x in ast.walk(b)) for b in par.orelse):
-                owner = par
-                break
-            n = par
-        if owner is None:
-            raise AnalysisError('Model.invert_role: strip/append are not the two arms of one if statement')
-        fm = bn.Abstractor(canon=_canon_role_atoms(p2)).formula(owner.test)
-
-        def expand(f):
+        def expand_call(f):
             if isinstance(f, tuple) and f[0] == 'atom' and f[1] == 'self.is_role_inverted(ROLE)':
                 return inverted
             if isinstance(f, tuple) and f[0] == 'not':
-                return bn.mk_not(expand(f[1]))
+                return bn.mk_not(expand_call(f[1]))
             if isinstance(f, tuple) and f[0] in ('and', 'or'):
-                return (f[0], [expand(x) for x in f[1]])
+                return (f[0], [expand_call(x) for x in f[1]])
             return f
-        cond = expand(fm)
-        d = bn.equivalent(cond, inverted)
-        rep.add(f'{ir.fq}: strips -of exactly when the role is inverted, appends it otherwise', ir.loc(owner),
-                'ok' if d is None else 'violation',
-                bn.show(cond) if d is None else f'branch condition {bn.show(cond)} differs from is_role_inverted '
-                                                f'({bn.show(inverted)}) for {d}')
-    # deinvert: inverts iff is_role_inverted(triple[1])
-    for cls_fq in ('Model',):
-        de = repo.func(M, f'{cls_fq}.deinvert')
-        tp = de.positional[1]
-        cfg = CFG(de.node)
-        IN = cond_facts(cfg)
-        pm = repo.parent_map(de.node)
-        inv_calls = [c for c, ts in ctx.cg.calls_in(de) if any(t.kind == 'func' and t.func.qualname.endswith('.invert') for t in ts)]
-        good = False
-        for c in inv_calls:
-            facts = facts_at(cfg, IN, pm, c)
-            if (f'self.is_role_inverted({tp}[1])', True) in facts and len(c.args) == 1 and norm(c.args[0]) == tp:
-                good = True
-        rep.add(f'{de.fq}: inverts exactly when is_role_inverted(triple[1])', de.loc(), 'ok' if good else 'undecided',
-                '' if good else 'no call of self.invert(triple) guarded by self.is_role_inverted(triple[1])')
-        in_loop = False
-        for c in inv_calls:
-            n = c
-            while id(n) in pm:
-                n = pm[id(n)]
-                if isinstance(n, (ast.While, ast.For)):
-                    in_loop = True
-        rep.add(f'{de.fq}: a triple is deinverted once, not repeatedly', de.loc(), 'violation' if in_loop else 'ok',
+        try:
+            cs = expand_call(condition_of(ctx, ir, strip, canon=_canon(p2)))
+            ca = expand_call(condition_of(ctx, ir, add, canon=_canon(p2)))
+        except AnalysisError as exc:
+            rep.undecided(f'{ir.fq}: branch conditions', ir.loc(), str(exc))
+            cs = ca = None
+        if cs is not None:
+            known = set(bn.atoms_of(cs)) | set(bn.atoms_of(ca)) <= {HAS[1], ENDS[1]}
+            d1 = bn.equivalent(cs, inverted)
+            d2 = bn.equivalent(ca, bn.mk_not(inverted))
+            rep.add(f'{ir.fq}: strips -of exactly when the role is inverted', ir.loc(strip),
+                    'ok' if d1 is None else ('violation' if known else 'undecided'),
+                    bn.show(cs) if d1 is None else f'strips when {bn.show(cs)}; is_role_inverted is {bn.show(inverted)}; they differ for {d1}')
+            rep.add(f'{ir.fq}: appends -of exactly when the role is not inverted', ir.loc(add),
+                    'ok' if d2 is None else ('violation' if known else 'undecided'),
+                    bn.show(ca) if d2 is None else f'appends when {bn.show(ca)}; differs from `not inverted` for {d2}')
+    # deinvert
+    de = repo.func(M, 'Model.deinvert')
+    tp = de.positional[1]
+    inv_calls = [c for c, ts in ctx.cg.calls_in(de) if any(t.kind == 'func' and t.func.qualname.endswith('.invert') for t in ts)]
+    pm = repo.parent_map(de.node)
+    if not inv_calls:
+        rep.undecided(f'{de.fq}: inverts through self.invert', de.loc(), 'no call of self.invert(...)')
+    for c in inv_calls:
+        in_loop = any(isinstance(a, (ast.While, ast.For)) for a in _anc(pm, c))
+        rep.add(f'{de.fq}: a triple is deinverted once, not repeatedly', de.loc(c), 'violation' if in_loop else 'ok',
                 'the inversion sits in a loop: an over-inverted role (:ARG0-of-of) is deinverted twice, which the documented '
                 'reading forbids (only canonicalisation removes pairs of inversions)' if in_loop else '')
-        rets = [n for n in walk_local(de.node) if isinstance(n, ast.Return)]
-        rep.add(f'{de.fq}: returns the (possibly inverted) triple', de.loc(),
-                'ok' if rets and all(r.value is not None and norm(r.value) == tp for r in rets) else 'undecided')
+        if in_loop:
+            continue
+        try:
+            cond = condition_of(ctx, de, c)
+        except AnalysisError as exc:
+            rep.undecided(f'{de.fq}: condition of the inversion', de.loc(c), str(exc))
+            continue
+        d = bn.equivalent(cond, ('atom', f'self.is_role_inverted({tp}[1])'))
+        rep.add(f'{de.fq}: inverts exactly when is_role_inverted(triple[1])', de.loc(c), 'ok' if d is None else 'undecided', bn.show(cond))
+        rep.add(f'{de.fq}: the whole triple is inverted', de.loc(c), 'ok' if len(c.args) == 1 and norm(c.args[0]) == tp else 'undecided')
     # has_role
     hr = repo.func(M, 'Model.has_role')
     p3 = hr.positional[1]
 
     def canon3(s):
-        return _canon_role_atoms(p3)(s.replace(f'{p3}[:-3]', 'BASE'))
-    f = bn.Abstractor(canon=canon3).formula(_ret_expr(ctx, hr))
-    want = bn.mk_or([HAS, bn.mk_and([ENDS, ('atom', 'self._has_role(BASE)')])])
-    d = bn.equivalent(f, want)
-    rep.add(f'{hr.fq}: defined directly or as a single inversion of a defined role', hr.loc(), 'ok' if d is None else 'violation',
-            bn.show(f) if d is None else f'is {bn.show(f)}; differs for {d}')
-    # _has_role is a full match of the role regex
+        return _canon(p3)(s.replace(f'{p3}[:-3]', 'BASE'))
+    try:
+        f = bool_function_formula(ctx, hr, canon=canon3)
+        want = bn.mk_or([HAS, bn.mk_and([ENDS, ('atom', 'self._has_role(BASE)')])])
+        known = set(bn.atoms_of(f)) <= {HAS[1], ENDS[1], 'self._has_role(BASE)'}
+        d = bn.equivalent(f, want)
+        rep.add(f'{hr.fq}: defined directly or as a single inversion of a defined role', hr.loc(),
+                'ok' if d is None else ('violation' if known else 'undecided'),
+                bn.show(f) if d is None else f'is {bn.show(f)}; differs for {d}')
+    except AnalysisError as exc:
+        rep.undecided(f'{hr.fq}: boolean function', hr.loc(), str(exc))
+    # membership: an anchored pattern of all role alternatives, matched as a whole
     h = repo.func(M, 'Model._has_role')
-    src = norm(_ret_expr(ctx, h))
-    rep.add(f'{h.fq}: membership is a match of the anchored role pattern', h.loc(),
-            'ok' if src in ('self._role_re.match(role) is not None', 'self._role_re.fullmatch(role) is not None',
-                            'bool(self._role_re.match(role))') else 'undecided', src)
+    rets = _ret_stmts(h)
+    src = norm(expand(ctx, h, rets[0].value, rets[0])) if len(rets) == 1 else ''
+    full = 'fullmatch(' in src
+    uses_match = '.match(' in src or full
+    rep.add(f'{h.fq}: membership is a match of the role pattern', h.loc(), 'ok' if uses_match and '_role_re' in src else 'undecided', src[:80])
     init = repo.func(M, 'Model.__init__')
     pat = None
     for n in walk_local(init.node):
         if isinstance(n, ast.Assign) and norm(n.targets[0]) == 'self._role_re':
-            pat = n.value
-    okp = False
-    if isinstance(pat, ast.Call) and pat.args:
-        a = pat.args[0]
-        if isinstance(a, ast.Call) and isinstance(a.func, ast.Attribute) and a.func.attr == 'format' \
-                and try_fold(a.func.value) == (True, '^({})$'):
-            j = a.args[0] if a.args else None
-            if isinstance(j, ast.Call) and isinstance(j.func, ast.Attribute) and j.func.attr == 'join' \
-                    and try_fold(j.func.value) == (True, '|'):
-                inner = norm(j.args[0]) if j.args else ''
-                okp = 'self.roles' in inner and 'top_role' in inner and 'concept_role' in inner
-    rep.add(f'{init.fq}: the role pattern is ^(alternatives of all roles, top role, concept role)$', init.loc(),
-            'ok' if okp else 'undecided', norm(pat)[:100] if pat is not None else 'no pattern')
+            pat = n
+    if pat is None or not (isinstance(pat.value, ast.Call) and pat.value.args):
+        rep.undecided(f'{init.fq}: the role pattern', init.loc(), 'no assignment self._role_re = re.compile(...)')
+        return rep
+    pieces = _template_pieces(ctx, init, pat.value.args[0], pat)
+    joins = [x for x in pieces if x[0] == 'join']
+    first, last = pieces[0], pieces[-1]
+    alts = len(joins) == 1 and joins[0][1] == '|' and all(w in joins[0][2] for w in ('roles', 'top_role', 'concept_role'))
+    key = f'{init.fq}: the role pattern joins all role patterns, the top role and the concept role with |'
+    rep.add(key, init.loc(pat), 'ok' if alts else 'undecided', str(pieces)[:140])
+    if alts:
+        key = f'{init.fq}: alternatives are grouped and anchored so that a role matches as a whole'
+        ji = pieces.index(joins[0])
+        before = ''.join(x[1] for x in pieces[:ji] if x[0] == 'lit')
+        after = ''.join(x[1] for x in pieces[ji + 1:] if x[0] == 'lit')
+        only_lits = all(x[0] == 'lit' for x in pieces[:ji] + pieces[ji + 1:])
+        grouped = before.endswith('(') and after.startswith(')')
+        end_anchored = after.endswith('$') or full
+        if not only_lits:
+            rep.undecided(key, init.loc(pat), str(pieces)[:140])
+        elif grouped and end_anchored:
+            rep.ok(key, init.loc(pat), f'{before}...{after}')
+        elif uses_match:
+            rep.violation(key, init.loc(pat),
+                          f'the pattern is {before!r} + alternatives + {after!r} and is used with match(): '
+                          + ('without the group the anchors bind only to the first and last alternative' if not grouped else
+                             'without the end anchor a role that merely starts with a defined role is accepted'))
+        else:
+            rep.undecided(key, init.loc(pat), str(pieces)[:140])
     return rep
 
 
@@ -192,139 +277,244 @@ def r40(ctx: Ctx) -> RuleReport:
     rep = RuleReport('R40', r40.title, floor=4)
     fi = ctx.repo.func(M, 'Model.errors')
     gp = fi.positional[1]
-    cfg = CFG(fi.node)
-    IN = cond_facts(cfg)
-    pm = ctx.repo.parent_map(fi.node)
+    v = view(ctx, fi)
+    cfg = v.cfg
     loop = None
     for n in walk_local(fi.node):
         if isinstance(n, ast.For) and norm(n.iter) == f'{gp}.triples':
             loop = n
             break
     if loop is None:
-        rep.undecided(f'{fi.fq}: loop over all of graph.triples', fi.loc(), 'no `for ... in graph.triples` loop (a slice or a filtered list skips triples)')
+        rep.undecided(f'{fi.fq}: loop over all of graph.triples', fi.loc(), 'no `for ... in graph.triples` loop')
         return rep
     rep.ok(f'{fi.fq}: loop over all of graph.triples', fi.loc(loop))
     head = cfg.node_of(loop)
-    tests = [nd for nd in cfg.nodes if nd.kind == 'cond' and 'self.has_role(' in norm(nd.ast)
-             and any(x is nd.ast for x in ast.walk(loop))]
-    if len(tests) != 1:
-        rep.undecided(f'{fi.fq}: one role test per triple', fi.loc(loop), f'{len(tests)} has_role tests in the loop')
-        return rep
-    t = tests[0]
-    path = cfg.path_avoiding([(head, 'T')], {head, cfg.exit, cfg.rexit}, lambda nd: nd.id == t.id)
-    rep.add(f'{fi.fq}: the role test runs on every iteration', fi.loc(t.ast), 'violation' if path else 'ok',
-            'an iteration can finish without testing the role: ' + ' -> '.join(repr(cfg.nodes[p]) for p in path) if path else '')
-    # the role tested is slot 1 of the loop's triple
-    call = t.ast if isinstance(t.ast, ast.Call) else next(x for x in ast.walk(t.ast) if isinstance(x, ast.Call) and norm(x.func) == 'self.has_role')
-    arg = call.args[0] if call.args else None
     tv = loop.target.id if isinstance(loop.target, ast.Name) else None
-    role_ok = False
-    if isinstance(arg, ast.Subscript) and tv and norm(arg) == f'{tv}[1]':
-        role_ok = True
-    if isinstance(arg, ast.Name):
-        for n in ast.walk(loop):
-            if isinstance(n, ast.Assign) and isinstance(n.targets[0], ast.Tuple) and len(n.targets[0].elts) == 3 \
-                    and isinstance(n.value, ast.Name) and n.value.id == tv and norm(n.targets[0].elts[1]) == arg.id:
-                role_ok = True
-    rep.add(f'{fi.fq}: the tested role is the role of the triple', fi.loc(call), 'ok' if role_ok else 'undecided', norm(call))
-    # the message is recorded under the triple when (and only when) the test fails
-    apps = [n for n in ast.walk(loop) if isinstance(n, ast.Call) and isinstance(n.func, ast.Attribute) and n.func.attr == 'append'
-            and n.args and try_fold(n.args[0]) == (True, 'invalid role')]
-    good = False
-    for a in apps:
-        facts = facts_at(cfg, IN, pm, a)
-        if (norm(call), False) in facts and tv and norm(a.func.value).endswith(f'[{tv}]'):
-            good = True
-    rep.add(f'{fi.fq}: "invalid role" is recorded for the triple exactly when has_role fails', fi.loc(loop),
-            'ok' if good else 'undecided')
-    # unreachable: sorted iteration (R13 classifies it), messages per triple of the unreachable variable
-    apps2 = [n for n in walk_local(fi.node) if isinstance(n, ast.Call) and isinstance(n.func, ast.Attribute)
-             and n.func.attr == 'append' and n.args and try_fold(n.args[0]) == (True, 'unreachable')]
+    role_names = set()
+    if tv:
+        role_names.add(f'{tv}[1]')
+    for n in ast.walk(loop):
+        if isinstance(n, ast.Assign) and isinstance(n.targets[0], ast.Tuple) and len(n.targets[0].elts) == 3 \
+                and isinstance(n.value, ast.Name) and n.value.id == tv:
+            role_names.add(norm(n.targets[0].elts[1]))
+    if isinstance(loop.target, ast.Tuple) and len(loop.target.elts) == 3:
+        role_names.add(norm(loop.target.elts[1]))
+    calls = [n for n in ast.walk(loop) if isinstance(n, ast.Call) and isinstance(n.func, ast.Attribute) and n.func.attr == 'has_role']
+    if not calls:
+        rep.undecided(f'{fi.fq}: roles are tested with has_role', fi.loc(loop), 'no has_role call in the loop')
+    for c in calls:
+        a = c.args[0] if c.args else None
+        key = f'{fi.fq}: the tested role is the role of the triple'
+        if a is None:
+            rep.undecided(key, fi.loc(c), norm(c))
+            continue
+        ax = expand(ctx, fi, a, c)
+        if norm(a) in role_names or norm(ax) in role_names:
+            rep.ok(key, fi.loc(c), norm(c))
+        elif isinstance(ax, ast.Call) and any(norm(x) in role_names for x in ast.walk(ax) if isinstance(x, (ast.Name, ast.Subscript))):
+            rep.violation(key, fi.loc(c),
+                          f'has_role is asked about {norm(ax)[:60]}, a rewritten role, not the role the triple carries: a role that only '
+                          f'becomes valid after rewriting (stacked -of, a non-canonical spelling) is no longer reported')
+        else:
+            rep.undecided(key, fi.loc(c), norm(c))
+    tests = [nd for nd in cfg.nodes if nd.kind == 'cond' and '.has_role(' in norm(nd.ast) and any(x is nd.ast for x in ast.walk(loop))]
+    if len(tests) == 1:
+        t = tests[0]
+        path = cfg.path_avoiding([(head, 'T')], {head, cfg.exit, cfg.rexit}, lambda nd: nd.id == t.id)
+        rep.add(f'{fi.fq}: the role test runs on every iteration', fi.loc(t.ast), 'violation' if path else 'ok',
+                'an iteration can finish without testing the role: ' + ' -> '.join(repr(cfg.nodes[p]) for p in path) if path else '')
+        apps = [n for n in ast.walk(loop) if isinstance(n, ast.Call) and isinstance(n.func, ast.Attribute) and n.func.attr == 'append'
+                and n.args and try_fold(n.args[0]) == (True, 'invalid role')]
+        good = False
+        call_src = norm(next(x for x in ast.walk(t.ast) if isinstance(x, ast.Call) and isinstance(x.func, ast.Attribute) and x.func.attr == 'has_role'))
+        for a in apps:
+            if (call_src, False) in facts_ex(ctx, fi, a) and tv and norm(a.func.value).endswith(f'[{tv}]'):
+                good = True
+        rep.add(f'{fi.fq}: "invalid role" is recorded for the triple exactly when has_role fails', fi.loc(loop), 'ok' if good else 'undecided')
+    else:
+        rep.undecided(f'{fi.fq}: one role test per triple', fi.loc(loop), f'{len(tests)} has_role conditions in the loop')
+    reach = [f for f in local_callees(ctx, fi, depth=3) if f.module.name == M]
+    apps2 = []
+    for f in reach:
+        apps2 += [n for n in walk_local(f.node) if isinstance(n, ast.Call) and isinstance(n.func, ast.Attribute)
+                  and n.func.attr == 'append' and n.args and try_fold(n.args[0]) == (True, 'unreachable')]
     rep.add(f'{fi.fq}: "unreachable" is recorded per triple', fi.loc(), 'ok' if apps2 else 'undecided')
-    # _dfs: adjacency restricted to variables of the graph, made symmetric
-    dfs = ctx.repo.func(M, '_dfs')
-    gparam = dfs.positional[0]
-    restricted = False
-    for n in walk_local(dfs.node):
-        if isinstance(n, (ast.SetComp, ast.GeneratorExp, ast.ListComp)):
-            for g in n.generators:
-                if any(norm(c) in (f'target in {gparam}', f'tgt in {gparam}') or (isinstance(c, ast.Compare) and isinstance(c.ops[0], ast.In)
-                       and norm(c.comparators[0]) == gparam) for c in g.ifs):
-                    restricted = True
-    rep.add(f'{dfs.fq}: only targets that are variables of the graph become neighbours', dfs.loc(),
-            'ok' if restricted else 'undecided',
-            '' if restricted else 'constants are treated as nodes: two components sharing a constant would count as connected')
-    sym = any(isinstance(n, ast.Call) and isinstance(n.func, ast.Attribute) and n.func.attr == 'add'
-              and isinstance(n.func.value, ast.Subscript) for n in walk_local(dfs.node))
-    rep.add(f'{dfs.fq}: edges are made bidirectional', dfs.loc(), 'ok' if sym else 'undecided')
+    # adjacency: only targets that are variables of the graph become neighbours
+    found, unrestricted = [], []
+    for f in reach:
+        for n in walk_local(f.node):
+            if isinstance(n, (ast.SetComp, ast.GeneratorExp, ast.ListComp)):
+                for g in n.generators:
+                    if isinstance(g.target, ast.Tuple) and len(g.target.elts) == 3 and isinstance(g.target.elts[2], ast.Name):
+                        tname = g.target.elts[2].id
+                        if not any(isinstance(x, ast.Name) and x.id == tname for x in ast.walk(n.elt)):
+                            continue
+                        restricted = any(isinstance(c, ast.Compare) and isinstance(c.ops[0], ast.In) and norm(c.left) == tname for c in g.ifs)
+                        found.append((f, n))
+                        if not restricted:
+                            unrestricted.append((f, n))
+            if isinstance(n, ast.For) and isinstance(n.target, ast.Tuple) and len(n.target.elts) == 3 and isinstance(n.target.elts[2], ast.Name):
+                tname = n.target.elts[2].id
+                adds = [c for c in ast.walk(n) if isinstance(c, ast.Call) and isinstance(c.func, ast.Attribute) and c.func.attr in ('add', 'append')
+                        and c.args and norm(c.args[0]) == tname and isinstance(c.func.value, ast.Subscript)]
+                for c in adds:
+                    restricted = any(pol and fa.startswith(f'{tname} in ') for fa, pol in facts_ex(ctx, f, c))
+                    found.append((f, c))
+                    if not restricted:
+                        unrestricted.append((f, c))
+    if not found:
+        rep.undecided(f'{fi.fq}: reachability: only targets that are variables of the graph become neighbours', fi.loc(),
+                      'the adjacency construction was not recognised')
+    for f, n in found:
+        bad = any(n is x for _, x in unrestricted)
+        rep.add(f'{f.fq}: only targets that are variables of the graph become neighbours', f.loc(n), 'violation' if bad else 'ok',
+                'the target of every triple becomes a neighbour, constants included: two components that merely share a constant '
+                '(the same concept, the same attribute value) count as connected and "unreachable" is not reported' if bad else '')
     return rep
 
 
 @rule('R23model', 'invert swaps source and target; the no-op model never deinverts; sort keys as documented')
 def r23model(ctx: Ctx) -> RuleReport:
+    from ..rx import Lang
     rep = RuleReport('R23model', r23model.title, floor=5)
     repo = ctx.repo
     inv = repo.func(M, 'Model.invert')
     tp = inv.positional[1]
-    ret = _ret_expr(ctx, inv)
-    good = False
-    if isinstance(ret, ast.Tuple) and len(ret.elts) == 3:
-        parts = [single_def(ctx, inv, e) for e in ret.elts]
-        # unpacking: source, role, target = triple
-        unpack = None
-        for n in walk_local(inv.node):
-            if isinstance(n, ast.Assign) and isinstance(n.targets[0], ast.Tuple) and len(n.targets[0].elts) == 3 \
-                    and norm(n.value) == tp:
-                unpack = [norm(e) for e in n.targets[0].elts]
+    unpack = None
+    for n in walk_local(inv.node):
+        if isinstance(n, ast.Assign) and isinstance(n.targets[0], ast.Tuple) and len(n.targets[0].elts) == 3 and norm(n.value) == tp:
+            unpack = [norm(e) for e in n.targets[0].elts]
 
-        def slot(e):
-            e0 = e
-            while isinstance(e0, ast.Call) and norm(e0.func) in ('cast', 'typing.cast') and len(e0.args) == 2:
-                e0 = single_def(ctx, inv, e0.args[1])
-            if isinstance(e0, ast.Subscript) and norm(e0.value) == tp and isinstance(e0.slice, ast.Constant):
-                return e0.slice.value
-            if isinstance(e0, ast.Name) and unpack and e0.id in unpack:
-                # a name re-bound from itself through cast keeps its slot
-                return unpack.index(e0.id)
+    def slot(e, depth=0):
+        if depth > 5:
             return None
+        while isinstance(e, ast.Call) and norm(e.func) in ('cast', 'typing.cast') and len(e.args) == 2:
+            e = e.args[1]
+        if isinstance(e, ast.Subscript) and norm(e.value) == tp and isinstance(e.slice, ast.Constant):
+            return e.slice.value
+        if isinstance(e, ast.Name) and unpack and e.id in unpack:
+            # a name re-bound only from itself through cast keeps its slot
+            vals = [x for x in ctx.cg.local_assigns(inv).get(e.id, []) if isinstance(x, ast.AST)]
+            others = [x for x in vals if not (isinstance(x, ast.Call) and norm(x.func) in ('cast', 'typing.cast')
+                                              and len(x.args) == 2 and norm(x.args[1]) == e.id) and norm(x) != tp]
+            if not others:
+                return unpack.index(e.id)
+        if isinstance(e, ast.Name):
+            d = single_def(ctx, inv, e)
+            if d is not e:
+                return slot(d, depth + 1)
+        return None
+    rets = _ret_stmts(inv)
+    if not rets:
+        rep.undecided(f'{inv.fq}: returns a triple', inv.loc())
+    for r in rets:
+        ret = r.value
+        key = f'{inv.fq}: returns (target, invert_role(role), source)'
+        if not (isinstance(ret, ast.Tuple) and len(ret.elts) == 3):
+            rep.undecided(key, inv.loc(r), norm(ret))
+            continue
         s0, s2 = slot(ret.elts[0]), slot(ret.elts[2])
         mid = single_def(ctx, inv, ret.elts[1])
-        mid_ok = isinstance(mid, ast.Call) and norm(mid.func) == 'self.invert_role' and len(mid.args) == 1 \
-            and slot(mid.args[0]) == 1
-        # `target = cast(Variable, target)` re-binds target: follow flow-insensitively by name
-        if s0 is None and isinstance(ret.elts[0], ast.Name) and unpack and ret.elts[0].id in unpack:
-            s0 = unpack.index(ret.elts[0].id)
-        if s2 is None and isinstance(ret.elts[2], ast.Name) and unpack and ret.elts[2].id in unpack:
-            s2 = unpack.index(ret.elts[2].id)
-        good = (s0, s2) == (2, 0) and mid_ok
-    rep.add(f'{inv.fq}: returns (target, invert_role(role), source)', inv.loc(), 'ok' if good else 'undecided', norm(ret))
+        mid_ok = isinstance(mid, ast.Call) and norm(mid.func) == 'self.invert_role' and len(mid.args) == 1 and slot(mid.args[0]) == 1
+        if s0 is None or s2 is None:
+            rep.undecided(key, inv.loc(r), norm(ret))
+        elif (s0, s2) != (2, 0):
+            rep.violation(key, inv.loc(r), f'returns slots ({s0}, role, {s2}) of the triple: source and target are not swapped')
+        else:
+            rep.add(key, inv.loc(r), 'ok' if mid_ok else 'undecided', norm(ret))
     noop = repo.func('penman.models.noop', 'NoOpModel.deinvert')
-    r = _ret_expr(ctx, noop)
-    rep.add(f'{noop.fq}: returns its argument unchanged', noop.loc(),
-            'ok' if isinstance(r, ast.Name) and r.id == noop.positional[1] and not ctx.cg.local_assigns(noop).get(r.id) else 'undecided', norm(r))
-    nm = repo.cls('penman.models.noop', 'NoOpModel')
-    extra = sorted(set(nm.methods) - {'deinvert'})
-    rep.add('penman.models.noop:NoOpModel overrides deinvert only', nm.module.relpath, 'ok' if not extra else 'info',
-            f'also overrides {extra}' if extra else '')
-    # alphanumeric_order: (name, int(digits))
+    for r in _ret_stmts(noop):
+        good = isinstance(r.value, ast.Name) and r.value.id == noop.positional[1] and not ctx.cg.local_assigns(noop).get(r.value.id)
+        calls_inv = any(isinstance(x, ast.Call) and isinstance(x.func, ast.Attribute) and x.func.attr in ('invert', 'deinvert', 'invert_role')
+                        for x in ast.walk(r.value))
+        rep.add(f'{noop.fq}: returns its argument unchanged', noop.loc(r), 'ok' if good else ('violation' if calls_inv else 'undecided'),
+                norm(r.value) if good else f'the no-op model returns {norm(r.value)}')
+    # alphanumeric_order
     an = repo.func(M, 'Model.alphanumeric_order')
-    ints = [n for n in walk_local(an.node) if isinstance(n, ast.Call) and isinstance(n.func, ast.Name) and n.func.id == 'int']
-    rx = [n for n in walk_local(an.node) if isinstance(n, ast.Call) and norm(n.func) == 're.match']
-    pat_ok = bool(rx) and try_fold(rx[0].args[0]) == (True, r'(.*\D)(\d+)$')
-    rep.add(f'{an.fq}: numeric suffix is compared as an integer', an.loc(), 'ok' if ints and pat_ok else 'undecided',
-            '' if ints and pat_ok else 'suffix not split by (.*\\D)(\\d+)$ and converted with int()')
-    r = _ret_expr(ctx, an)
-    rn = [norm(single_def(ctx, an, e)) for e in r.elts] if isinstance(r, ast.Tuple) else []
-    rep.add(f'{an.fq}: key is (name, number)', an.loc(), 'ok' if len(rn) == 2 else 'undecided', str(rn))
+    pats = []
+    for n in walk_local(an.node):
+        if isinstance(n, ast.Call) and isinstance(n.func, ast.Attribute) and n.func.attr in ('match', 'fullmatch', 'search'):
+            if norm(n.func.value) == 're' and n.args:
+                ok, pv = try_fold(n.args[0], {}, repo, an.module)
+                if ok:
+                    pats.append((pv, n))
+            elif isinstance(n.func.value, ast.Name):
+                r = repo.resolve_name(an.module, n.func.value.id)
+                if r[0] == 'const' and isinstance(r[1].constants[r[2]], ast.Call) and r[1].constants[r[2]].args:
+                    ok, pv = try_fold(r[1].constants[r[2]].args[0], {}, repo, r[1])
+                    if ok:
+                        pats.append((pv, n))
+    if len(pats) != 1:
+        rep.undecided(f'{an.fq}: the numeric suffix is split off by a pattern', an.loc(), f'{len(pats)} patterns found')
+    else:
+        pv, n = pats[0]
+        key = f'{an.fq}: the pattern splits <anything ending in a non-digit><digits>'
+        try:
+            eq, only_code, only_doc = Lang.from_pattern(pv).equivalent(Lang.from_pattern(r'(.*\D)(\d+)$'))
+            rep.add(key, an.loc(n), 'ok' if eq else 'violation',
+                    pv if eq else f'pattern {pv!r}: ' + (f'{only_doc!r} is no longer split into name and number' if only_doc is not None
+                                                         else f'{only_code!r} is now split although it has no <non-digit><digits> shape'))
+        except AnalysisError as exc:
+            rep.undecided(key, an.loc(n), str(exc))
+        # the split point is unique only if the name group cannot end in a digit (else greedy .* eats all digits but one)
+        key = f'{an.fq}: the name group cannot end in a digit (the number is the maximal digit suffix)'
+        try:
+            from ..rx import ParsedPattern, category, sre_c
+            pp = ParsedPattern(pv)
+            groups = [av for op, av in pp.tree if op is sre_c.SUBPATTERN and av[0] is not None]
+            digits = category('digit')
+            if len(groups) == 2:
+                g1 = Lang(pp._conv_seq(groups[0][3]))
+                g2 = Lang(pp._conv_seq(groups[1][3]))
+                lastd = g1.last_set() & digits
+                if lastd or g1.nullable():
+                    rep.violation(key, an.loc(n), f'in {pv!r} the first group may end in {lastd.describe() if lastd else "nothing"}: '
+                                  f'"ARG12" is split as ("ARG1", 2), so numbered roles no longer sort by their number')
+                elif not g2.alphabet().issubset(category('digit')):
+                    rep.undecided(key, an.loc(n), 'second group is not digits only')
+                else:
+                    rep.ok(key, an.loc(n))
+            else:
+                rep.undecided(key, an.loc(n), f'{len(groups)} top-level groups')
+        except (AnalysisError, ImportError, AttributeError) as exc:
+            rep.undecided(key, an.loc(n), str(exc))
+    ints =[n for n in walk_local(an.node) if isinstance(n, ast.Call) and isinstance(n.func, ast.Name) and n.func.id == 'int']
+    rep.add(f'{an.fq}: the numeric suffix is compared as an integer', an.loc(), 'ok' if ints else 'undecided')
+    for r in _ret_stmts(an):
+        rep.add(f'{an.fq}: key is (name, number)', an.loc(r), 'ok' if isinstance(r.value, ast.Tuple) and len(r.value.elts) == 2 else 'undecided', norm(r.value))
+    # canonical_order
     co = repo.func(M, 'Model.canonical_order')
-    r = _ret_expr(ctx, co)
-    good = isinstance(r, ast.Tuple) and len(r.elts) == 2 and norm(r.elts[0]) == f'self.is_role_inverted({co.positional[1]})' \
-        and norm(r.elts[1]) == f'self.alphanumeric_order({co.positional[1]})'
-    rep.add(f'{co.fq}: key is (is_role_inverted, alphanumeric_order): inverted roles last', co.loc(),
-            'ok' if good else 'undecided', norm(r))
+    cp = co.positional[1]
+    try:
+        _, inverted = _inverted_formula(ctx)
+    except AnalysisError:
+        inverted = None
+    for r in _ret_stmts(co):
+        e = expand(ctx, co, r.value, r)
+        if not (isinstance(e, ast.Tuple) and len(e.elts) == 2):
+            rep.undecided(f'{co.fq}: key is (inverted?, alphanumeric key)', co.loc(r), norm(e))
+            continue
+        first = e.elts[0]
+        key = f'{co.fq}: inverted roles sort last (first key component is is_role_inverted)'
+        if norm(first) == f'self.is_role_inverted({cp})':
+            rep.ok(key, co.loc(r))
+        elif inverted is not None:
+            f = bn.Abstractor(canon=_canon(cp)).formula(first)
+            if set(bn.atoms_of(f)) <= {HAS[1], ENDS[1]}:
+                d = bn.equivalent(f, inverted)
+                rep.add(key, co.loc(r), 'ok' if d is None else 'violation',
+                        '' if d is None else f'the first key component is {bn.show(f)}, which differs from is_role_inverted for {d}: a role the '
+                                             f'model defines that merely ends in -of (:consist-of) is sorted with the inverted roles')
+            else:
+                rep.undecided(key, co.loc(r), norm(first))
+        else:
+            rep.undecided(key, co.loc(r), norm(first))
+        second = e.elts[1]
+        rep.add(f'{co.fq}: second key component is alphanumeric_order(role)', co.loc(r),
+                'ok' if norm(second) == f'self.alphanumeric_order({cp})' else 'undecided', norm(second))
     oo = repo.func(M, 'Model.original_order')
-    r = _ret_expr(ctx, oo)
-    rep.add(f'{oo.fq}: constant key (stable sort keeps the order)', oo.loc(), 'ok' if isinstance(r, ast.Constant) else 'undecided')
+    for r in _ret_stmts(oo):
+        rep.add(f'{oo.fq}: constant key (stable sort keeps the order)', oo.loc(r), 'ok' if isinstance(r.value, ast.Constant) else 'undecided')
     return rep
 
 
@@ -332,43 +522,122 @@ def r23model(ctx: Ctx) -> RuleReport:
 def r24m(ctx: Ctx) -> RuleReport:
     rep = RuleReport('R24m', r24m.title, floor=3)
     fi = ctx.repo.func(M, 'Model.canonicalize_role')
-    p = fi.positional[1]
-    cfg = CFG(fi.node)
-    pm = ctx.repo.parent_map(fi.node)
-    colon = inv = normz = None
-    for n in walk_local(fi.node):
-        if isinstance(n, ast.Assign) and norm(n.targets[0]) == p:
-            v = n.value
-            if isinstance(v, ast.BinOp) and try_fold(v.left) == (True, ':') and norm(v.right) == p:
-                colon = n
-            elif isinstance(v, ast.Call) and norm(v.func) == 'self._canonicalize_inversion' and norm(v.args[0]) == p:
-                inv = n
-            elif isinstance(v, ast.Call) and norm(v.func) == 'self.normalizations.get' and len(v.args) == 2 \
-                    and norm(v.args[0]) == p and norm(v.args[1]) == p:
-                normz = n
-    for nm, st in (('adds the colon', colon), ('normalises inversions', inv), ('looks the result up in the normalisation table', normz)):
-        rep.add(f'{fi.fq}: {nm}', fi.loc(st) if st else fi.loc(), 'ok' if st is not None else 'undecided',
-                '' if st is not None else 'step not found in the accepted form `role = <step>(role)`')
-    if colon is not None and inv is not None and normz is not None:
-        nc, ni, nn = cfg.node_of(colon), cfg.node_of(inv), cfg.node_of(normz)
-        # order on every path; the table lookup is last: nothing re-binds role after it, and every
-        # path to the return passes inversion normalisation and then the lookup
-        after = cfg.reachable_from([nn])
-        bad = [nd for nd in after if nd not in (nn,) and cfg.nodes[nd].kind == 'stmt' and p in __import__('pv.cfg', fromlist=['assigned_names']).assigned_names(cfg.nodes[nd].ast)]
-        rep.add(f'{fi.fq}: the table lookup is applied last', fi.loc(normz), 'violation' if bad or ni in after or nc in after else 'ok',
-                'role is rewritten after the normalisation lookup' if bad or ni in after or nc in after else '')
-        skip = cfg.path_avoiding([(cfg.entry, None)], {cfg.exit}, lambda nd: nd.id == ni)
-        rep.add(f'{fi.fq}: every role goes through inversion normalisation', fi.loc(inv), 'violation' if skip else 'ok',
-                'a path reaches the return without normalising inversions' if skip else '')
-        skip2 = cfg.path_avoiding([(ni, None)], {cfg.exit}, lambda nd: nd.id == nn)
-        rep.add(f'{fi.fq}: the normalised-inversion role is what is looked up', fi.loc(normz), 'violation' if skip2 else 'ok',
-                'a path from inversion normalisation reaches the return without the table lookup' if skip2 else '')
-    rets = [n for n in walk_local(fi.node) if isinstance(n, ast.Return)]
-    rep.add(f'{fi.fq}: returns the rewritten role', fi.loc(), 'ok' if all(r.value is not None and norm(r.value) == p for r in rets) else 'undecided')
-    # _canonicalize_inversion: removes -of in pairs (invert twice), loops to a fixpoint
+
+    def find_calls(e, pred):
+        return [x for x in ast.walk(e) if isinstance(x, ast.Call) and pred(x)]
+
+    def is_inv(c):
+        return norm(c.func).endswith('_canonicalize_inversion')
+
+    def is_table(c):
+        return norm(c.func).endswith('normalizations.get')
+    rets = _ret_stmts(fi)
+    if not rets:
+        rep.undecided(f'{fi.fq}: returns the canonical role', fi.loc())
+        return rep
+    expanded = [(r, e) for r in rets for e in _expand_all(ctx, fi, r)]
+    some_inv = any(find_calls(e, is_inv) for _, e in expanded)
+    key = f'{fi.fq}: the table lookup is applied to the inversion-normalised role, as the last step'
+    seen = set()
+    for r, e in expanded:
+        tables = find_calls(e, is_table)
+        invs = find_calls(e, is_inv)
+        src = norm(e)
+        if src in seen:
+            continue
+        seen.add(src)
+        if tables:
+            t = tables[0]
+            arg_has_inv = bool(find_calls(t.args[0], is_inv)) if t.args else False
+            outer = isinstance(e, ast.Call) and is_table(e)
+            if arg_has_inv and outer:
+                rep.ok(key, fi.loc(r), src[:100])
+            elif not arg_has_inv:
+                rep.violation(key, fi.loc(r),
+                              f'`{src[:110]}`: the normalisation table is consulted with a role whose inversions were not normalised first '
+                              f'(a role with an extra pair of -of misses its table entry, and canonicalising twice gives a different result)')
+            else:
+                rep.undecided(key, fi.loc(r), src[:110])
+        elif invs:
+            rep.violation(key, fi.loc(r), f'`{src[:110]}` can be returned: the inversion-normalised role without the table lookup')
+        elif some_inv:
+            rep.violation(key, fi.loc(r), f'`{src[:110]}` can be returned without inversion normalisation and table lookup')
+        else:
+            rep.undecided(key, fi.loc(r), src[:110])
+    colon = [n for n in walk_local(fi.node) if isinstance(n, ast.BinOp) and isinstance(n.op, ast.Add) and try_fold(n.left) == (True, ':')]
+    rep.add(f'{fi.fq}: a missing leading colon is added', fi.loc(), 'ok' if colon else 'undecided')
+    # _canonicalize_inversion: inversions go in pairs
     ci = ctx.repo.func(M, 'Model._canonicalize_inversion')
-    calls = [n for n in walk_local(ci.node) if isinstance(n, ast.Call)]
-    invs = [c for c in calls if norm(single_def(ctx, ci, c.func)) in ('self.invert_role', 'invert')]
+    n_inv = 0
+    for n in walk_local(ci.node):
+        if isinstance(n, ast.Call):
+            f = single_def(ctx, ci, n.func)
+            if norm(f) in ('self.invert_role', 'invert'):
+                n_inv += 1
     rep.add(f'{ci.fq}: each round applies invert_role twice (inversions go in pairs)', ci.loc(),
-            'ok' if len(invs) == 2 else 'undecided', f'{len(invs)} invert_role applications per round')
+            'ok' if n_inv == 2 else 'undecided', f'{n_inv} invert_role applications per round')
+    # the role is rewritten by invert_role only: any other rewriting (slicing, concatenation) is a different
+    # algorithm whose agreement with the double-inversion fixpoint this rule cannot establish
+    other = []
+    for n in walk_local(ci.node):
+        if isinstance(n, ast.Assign) and isinstance(n.targets[0], ast.Name):
+            val = n.value
+            if isinstance(val, (ast.Name, ast.Attribute, ast.Constant)):
+                continue
+            if isinstance(val, ast.Call) and norm(single_def(ctx, ci, val.func)) in ('self.invert_role', 'invert'):
+                continue
+            other.append(n)
+    rep.add(f'{ci.fq}: the role is rewritten through invert_role only', ci.loc(other[0]) if other else ci.loc(),
+            'undecided' if other else 'ok', f'`{norm(other[0])[:70]}` rewrites the role by other means' if other else '')
     return rep
+
+
+def _expand_all(ctx: Ctx, fi: FuncInfo, ret: ast.Return, limit: int = 16) -> List[ast.AST]:
+    """All values the returned expression can stand for: every local name is replaced by each of its reaching
+    definitions in turn (role = f(role); role = g(role); return role -> g(f(role)); a name bound on two branches
+    gives two alternatives).  Parameters and names bound by loops/unpacking stay as they are."""
+    import copy
+    from ..cfg import def_value
+    v = view(ctx, fi)
+
+    def alts(e: ast.AST, at: ast.AST, depth: int) -> List[ast.AST]:
+        names = [n for n in ast.walk(e) if isinstance(n, ast.Name) and isinstance(n.ctx, ast.Load)]
+        try:
+            here = v.node_of(at)
+        except (KeyError, AnalysisError):
+            return [e]
+        out = [e]
+        done = set()
+        for nm in names:
+            if nm.id in done or depth > 8:
+                continue
+            done.add(nm.id)
+            defs = v.rd.get(here, {}).get(nm.id) or set()
+            vals = []
+            for d in sorted(defs):
+                if d == v.cfg.entry:
+                    vals.append(None)           # the parameter itself
+                    continue
+                val = def_value(v.cfg, d, nm.id)
+                if val is None:
+                    vals = []
+                    break
+                vals.append(val)
+            if not vals or vals == [None]:
+                continue
+            nxt = []
+            for cur in out:
+                for val in vals:
+                    if val is None:
+                        nxt.append(cur)
+                        continue
+                    for sub in alts(copy.deepcopy(val), val, depth + 1):
+                        class R(ast.NodeTransformer):
+                            def visit_Name(self, n):
+                                return copy.deepcopy(sub) if n.id == nm.id and isinstance(n.ctx, ast.Load) else n
+                        nxt.append(R().visit(copy.deepcopy(cur)))
+                        if len(nxt) > limit:
+                            raise AnalysisError(f'{fi.fq}: too many alternative values for the returned expression')
+            out = nxt
+        return out
+    return alts(copy.deepcopy(ret.value), ret, 0)
